@@ -78,6 +78,12 @@ AllDropped(opts) == opts.base # NoneQ /\ opts.base = Zero
 
 Decreasing(e) == \A j \in 1..(Len(e) - 1) : RLt(e[j + 1], e[j])
 
+\* ---- CStepGenerator paths: radial (dtheta ignored) or spiral: the ratio is rotated by exp(i*dtheta),
+\* dtheta = pi * theta[1] / theta[2]; step number j (generation order) is
+\*    base * nom * (|ratio| * exp(i*dtheta))^(exponent_j)
+\* The model gives modulus and angle separately: angle_j = dtheta * exponent_j.
+SpiralAngle(theta, e) == RMul(Q(theta[1], theta[2]), e)        \* in units of pi
+
 \* ---- what Derivative builds when the user passes step=None or a scalar
 DerivOpts(m, step) ==
   IF step = NoneQ /\ m \notin {"complex", "multicomplex"}
